@@ -107,3 +107,52 @@ pub open spec fn saver_pre(s: &Segment) -> bool {
 pub proof fn assume_count_fits(n: usize, s: &Segment)
     ensures n + seg_buf(s).len() <= usize::MAX,
 {}
+
+// ---- the size charged on append (same vocabulary as unit size_eq, which proves [C16.size-eq]) ----
+// charge(m) = Message::get_size_bytes() + POLLED_MESSAGE_METADATA
+pub uninterp spec fn charge(m: Message) -> nat;
+#[verifier::external_body]
+pub proof fn axiom_charge_min(m: Message)
+    ensures charge(m) >= POLLED_MESSAGE_METADATA,      // get_size_bytes() is unsigned
+{}
+pub open spec fn total_charge(s: Seq<Message>) -> nat
+    decreases s.len(),
+{
+    if s.len() == 0 { 0 } else { total_charge(s.drop_last()) + charge(s.last()) }
+}
+impl Message {
+    // sdk::messages::send_messages::Message::get_size_bytes (Sizeable)
+    #[verifier::external_body]
+    pub fn get_size_bytes(&self) -> (r: u64)
+        ensures r + POLLED_MESSAGE_METADATA == charge(*self),
+    { unimplemented!() }
+}
+pub proof fn lemma_total_charge_tail(s: Seq<Message>, i: int)
+    requires 0 <= i <= s.len(),
+    ensures
+        i < s.len() ==> total_charge(s.subrange(i, s.len() as int)) == charge(s[i]) + total_charge(s.subrange(i + 1, s.len() as int)),
+        i == s.len() ==> total_charge(s.subrange(i, s.len() as int)) == 0,
+    decreases s.len() - i,
+{
+    let t = s.subrange(i, s.len() as int);
+    if i < s.len() {
+        if i + 1 == s.len() {
+            assert(t.drop_last() =~= Seq::<Message>::empty());
+            assert(s.subrange(i + 1, s.len() as int) =~= Seq::<Message>::empty());
+        } else {
+            // t = [s[i]] + u ; peel the LAST element of both and use induction on the shorter sequence s.drop_last()
+            let s2 = s.drop_last();
+            lemma_total_charge_tail(s2, i);
+            assert(t.drop_last() =~= s2.subrange(i, s2.len() as int));
+            assert(s.subrange(i + 1, s.len() as int).drop_last() =~= s2.subrange(i + 1, s2.len() as int));
+            assert(t.last() == s.last());
+            assert(s.subrange(i + 1, s.len() as int).last() == s.last());
+        }
+    }
+}
+pub proof fn lemma_total_charge_push(s: Seq<Message>, m: Message)
+    ensures total_charge(s.push(m)) == total_charge(s) + charge(m),
+{
+    assert(s.push(m).drop_last() =~= s);
+}
+
